@@ -1,0 +1,29 @@
+//go:build verif
+// +build verif
+
+package network
+
+import (
+	"com.tuntun.rangers/node/src/middleware/log"
+)
+
+// Verification hook (C07, build tag verif only): hand one node-to-node message to
+// WorkerConn.handleMessage exactly as the websocket receive loop does, without a connection. Used to
+// drive the TransactionGotMsg branch (transactions pushed by peers: VerifyTransaction, then
+// AddTransaction). InitMiddleware (notify.BUS) and InitService must have run.
+func VerifC07HandleWorkerMessage(code uint32, body []byte, from string) error {
+	if bizLogger == nil {
+		bizLogger = log.GetLoggerByIndex(log.P2PBizLogConfig, "verif")
+	}
+	w := &WorkerConn{}
+	w.logger = log.GetLoggerByIndex(log.P2PLogConfig, "verif")
+	data, err := marshalMessage(Message{Code: code, Body: body})
+	if err != nil {
+		return err
+	}
+	w.handleMessage(data, from)
+	return nil
+}
+
+// VerifC07TransactionGotMsg is the message code of a transaction push.
+const VerifC07TransactionGotMsg = TransactionGotMsg
